@@ -48,7 +48,8 @@ def world(z1=None, z2=None, edits=()):
     if 'appendA' in edits:
         windsA.append(pb.Wind(U.MPH(8), U.Degree(270), U.Yard(15)))
     ub = (30, 10) if 'swapB' in edits else (10, 30)
-    dmC = pb.DragModel(0.3, pb.TableG7)        # no weight / dimensions: no spin drift whatever the barrel twist
+    # no weight / dimensions: no spin drift whatever the barrel twist; a CUSTOM table that ends at Mach 2.0, below the launch Mach of shot G (2.3)
+    dmC = pb.DragModel(0.3, [dict(p_) for p_ in pb.TableG7 if p_['Mach'] <= 2.0])
     S = {'A': pb.Shot(W1, ammoA, winds=windsA),
          # B: powder sensitivity on, powder (15 C) warmer than the air at 5000 ft: the launch velocity is derived from ammo and atmosphere at every call
          'B': pb.Shot(W2, pb.Ammo(dmB, U.FPS(2000), U.Celsius(15), 0.015, True), look_angle=U.Degree(10), atmo=atm,
